@@ -1,10 +1,153 @@
 import TempestVerif.Drv.Util
-/- line-protocol handlers of property C02 (stub: no commands yet) -/
+import TempestVerif.Model.PipelineX
+/- line-protocol handlers of properties C01 / C02: the EXTENDED whole-run model (`Model.PipelineX`) at Float.
+
+   pipex.F ratio=<f> n=<nat> vv=<f|none> tolE=<f> tolB=<f> fuel=<nat> syst=<0|1> kind=<tpcn|rwm> d=<nat> nsteps=<nat>
+           nmax=<nat> per=<nats> refl=<nats> guard=<0|1> tol=<f> ntotal=<f> post=<spec>&<spec>… tapes=<tape>|<tape>|…
+     tape (warm-up):    D/<u rows `;`>/<draw logl, `x` = -inf>/<picks>/<metric table | ->/<discarded draws>
+     tape (annealing):  A/<resampling uniforms>/<metric table `b:m,b:m…` | ->/<mode>&<mode>…/<assign>/<step>+<step>…
+       mode:            <mu>~<chol rows `;`>~<invcov rows `;`>~<nu>
+       step:            <gammas>~<z rows `;`>~<logl at the evaluated points, `x` = -inf>~<uniforms>
+     post spec:         <trim 0|1>:<resample 0|1>:<ess_trim f>:<bins nat>:<u0 f>            (`-` = no posterior call)
+   → <iter>|<iter>|…#<batch>|<batch>|…#<final evidence | none>#<post>|<post>|…
+         or  error:<k>  (iteration k left the model)   or  guard:<k>  (the loop guard disagrees before iteration k / at the end)
+       iter:  <beta>;<ess>;<logz after reweight>;<logz committed>;<idx>;<mask>+<mask>…;<branch>;<nsteps>;<sigmas>;
+              <acceptance>;<efficiency>;<cands of step 1 `:` rows>+<cands of step 2>…
+       batch: <u rows `;`>/<logl>
+       post:  <pool positions>/<weights>/<logw>   |  none
+-/
 namespace Drv.C02
-open Drv
+open Drv Model.Pipeline Model.PipelineX Model.Reweight Model.Kernel
+
+def parseOptF? (s : String) : Option (Option Float) :=
+  if s == "x" then some none else (parseFloat? s).map some
+
+def parseRows? (s : String) : Option (List (List Float)) :=
+  if s.isEmpty || s == "-" then some [] else (s.splitOn ";").mapM (parseList? parseFloat?)
+
+def parseMode? (s : String) : Option (Mode Float) :=
+  match s.splitOn "~" with
+  | [a, b, c, d] => do
+    let mu ← parseList? parseFloat? a
+    let chol ← parseRows? b
+    let inv ← parseRows? c
+    let nu ← parseFloat? d
+    pure ⟨mu, chol, inv, nu⟩
+  | _ => none
+
+def parseXStep? (s : String) : Option (XStep Float) :=
+  match s.splitOn "~" with
+  | [a, b, c, d] => do
+    let g ← parseList? parseFloat? a
+    let z ← parseRows? b
+    let lp ← parseList? parseOptF? c
+    let r ← parseList? parseFloat? d
+    pure ⟨g, z, lp, r⟩
+  | _ => none
+
+def parsePair? (s : String) : Option (Float × Float) :=
+  match s.splitOn ":" with
+  | [a, b] => do pure ((← parseFloat? a), (← parseFloat? b))
+  | _ => none
+
+def parseXTape? (s : String) : Option (XTape Float) :=
+  match s.splitOn "/" with
+  | ["D", a, b, c, m, dd] => do
+    let us ← parseRows? a
+    let l ← parseList? parseOptF? b
+    let p ← parseNatList? c
+    let tbl ← parseList? parsePair? m
+    let disc ← dd.toNat?
+    pure ⟨us, l, p, [], tbl, [], [], [], disc⟩
+  | ["A", a, m, md, asg, st] => do
+    let u ← parseList? parseFloat? a
+    let tbl ← parseList? parsePair? m
+    let modes ← if md == "-" then some [] else (md.splitOn "&").mapM parseMode?
+    let assign ← parseNatList? asg
+    let steps ← if st == "-" then some [] else (st.splitOn "+").mapM parseXStep?
+    pure ⟨[], [], [], u, tbl, modes, assign, steps, 0⟩
+  | _ => none
+
+def showRows (m : List (List Float)) : String :=
+  if m.isEmpty then "-" else ";".intercalate (m.map (showList showFloat))
+
+def showCands (m : List (List Float)) : String :=
+  if m.isEmpty then "-" else ":".intercalate (m.map (showList showFloat))
+
+def showMask (m : List Bool) : String := if m.isEmpty then "-" else String.ofList (m.map fun b => if b then '1' else '0')
+
+def showXIter (o : XOut Float) : String :=
+  ";".intercalate [showFloat o.beta, showFloat o.ess, showFloat o.logzRw, showFloat o.logz,
+    showList toString o.idx, (if o.masks.isEmpty then "-" else "+".intercalate (o.masks.map showMask)), o.branch.name,
+    toString o.nsteps, showList showFloat o.sigmas, showFloat o.acceptance, showFloat o.efficiency,
+    (if o.cands.isEmpty then "-" else "+".intercalate (o.cands.map showCands))]
+
+structure PostSpec where
+  trim : Bool
+  res : Bool
+  essTrim : Float
+  bins : Nat
+  u0 : Float
+
+def parsePost? (s : String) : Option PostSpec :=
+  match s.splitOn ":" with
+  | [a, b, c, d, e] => do
+    let et ← parseFloat? c
+    let bins ← d.toNat?
+    let u0 ← parseFloat? e
+    pure ⟨a == "1", b == "1", et, bins, u0⟩
+  | _ => none
+
+def showPost (s : XState Float) (p : PostSpec) : String :=
+  match posteriorX s p.essTrim p.bins p.u0 ⟨p.res, p.trim, false, true⟩ with
+  | none => "none"
+  | some a => s!"{showList toString a.x}/{showList showFloat a.w}/{showList showFloat a.lw}"
+
+inductive Stop where
+  | err (k : Nat)
+  | guard (k : Nat)
+
+def pipex (args : List (String × String)) : Option String := do
+  let ratio ← (getArg args "ratio").bind parseFloat?
+  let n ← (getArg args "n").bind String.toNat?
+  let vv ← (getArg args "vv").bind fun s => if s == "none" then some none else (parseFloat? s).map some
+  let tolE ← (getArg args "tolE").bind parseFloat?
+  let tolB ← (getArg args "tolB").bind parseFloat?
+  let fuel ← (getArg args "fuel").bind String.toNat?
+  let syst ← (getArg args "syst").map (· == "1")
+  let kind ← match getArg args "kind" with | some "tpcn" => some Kind.tpcn | some "rwm" => some Kind.rwm | _ => none
+  let d ← (getArg args "d").bind String.toNat?
+  let nsteps ← (getArg args "nsteps").bind String.toNat?
+  let nmax ← (getArg args "nmax").bind String.toNat?
+  let per ← (getArg args "per").bind parseNatList?
+  let refl ← (getArg args "refl").bind parseNatList?
+  let guard ← (getArg args "guard").map (· == "1")
+  let tol ← (getArg args "tol").bind parseFloat?
+  let ntotal ← (getArg args "ntotal").bind parseFloat?
+  let posts ← (getArg args "post").bind fun s => if s == "-" then some [] else (s.splitOn "&").mapM parsePost?
+  let tapes ← (getArg args "tapes").bind fun s => (s.splitOn "|").mapM parseXTape?
+  let c : XCfg Float := ⟨⟨ratio, n, vv, tolE, tolB, fuel⟩, syst, kind, d, nsteps, nmax, per, refl⟩
+  -- iteration by iteration (same composition as `runGuardedX` / `runItersX`), so that the failing iteration can be named
+  let rec go (s : XState Float) (k : Nat) (acc : List (XOut Float)) : List (XTape Float) → Sum Stop (XState Float × List (XOut Float))
+    | [] => if guard && contX tol ntotal s then .inl (.guard k) else .inr (s, acc.reverse)
+    | t :: ts =>
+      if guard && !(contX tol ntotal s) then .inl (.guard k) else
+      match iterateX c s t with
+      | some (s', o) => go s' (k + 1) (o :: acc) ts
+      | none => .inl (.err k)
+  match go initX 0 [] tapes with
+  | .inl (.err k) => pure s!"error:{k}"
+  | .inl (.guard k) => pure s!"guard:{k}"
+  | .inr (s, outs) =>
+    let its := "|".intercalate (outs.map showXIter)
+    let hs := "|".intercalate (s.hist.map fun b => s!"{showRows b.us}/{showList showFloat b.b.logl}")
+    let ev := match finalEvidenceX s with | some z => showFloat z | none => "none"
+    let ps := if posts.isEmpty then "-" else "|".intercalate (posts.map (showPost s))
+    pure s!"{its}#{hs}#{ev}#{ps}"
 
 def handle (cmd : String) (args : List (String × String)) : Option String :=
   match cmd with
+  | "pipex.F" => some ((pipex args).getD "bad-op")
   | _ => none
 
 end Drv.C02
